@@ -60,14 +60,18 @@ func clip(s string) string {
 }
 
 func run(t *rapid.T) {
-	b := fam.Bounds{MaxRows: 24, MaxCols: 4, MaxMembers: 24, HugeOdds: 150}
+	b := fam.Bounds{MaxRows: 24, MaxCols: 4, MaxMembers: 24, HugeOdds: 150, GiantOdds: uint64(core.EnvInt("VERIF_GIANT_ODDS", 250))}
 	maxOps, maxBuild, maxClients := 4, 5, 6
 	if core.Thorough() {
-		b = fam.Bounds{MaxRows: 64, MaxCols: 5, MaxMembers: 40, HugeOdds: 60}
+		b = fam.Bounds{MaxRows: 64, MaxCols: 5, MaxMembers: 40, HugeOdds: 60, GiantOdds: uint64(core.EnvInt("VERIF_GIANT_ODDS", 150))}
 		maxOps, maxBuild, maxClients = 6, 8, 8
 	}
 	w := fam.NewWorld(t, b)
 	tr := &trace{}
+	if w.Giant {
+		core.Probe("giant-world")
+		b.MaxMembers, maxOps, maxBuild, maxClients = 8, 2, 2, 4
+	}
 	// cold runs: the harness does not observe the values the build phase
 	// derives before the goroutines start, so that it is not the first to
 	// touch whatever a value initialises lazily (an error text, a cache)
